@@ -144,6 +144,11 @@ def loaded_cases():
     for e1, e2 in itertools.product(exprs, repeat=2):
         for m1, m2 in itertools.product(["0", "[0, 1]", "2"], ["1", "[2, 0]", "0"]):
             texts.append("name g\nversion 1.0\n\nG0%s | %s\nG1%s | %s\n" % (e1, m1, e2, m2))
+    # registers with two digits, on programs over modes 0..12 (q12 must not be taken for q1, nor q10 for q1/q0)
+    exprs2 = ["(q12)", "(q10-q1)", "(k=q12*2)", "(q1)", "(q2, k=q10)", ""]
+    for e1, e2, e3 in itertools.product(exprs2, repeat=3):
+        for ms in (("12", "1", "10"), ("[1, 2]", "12", "[10, 0]"), ("10", "[12, 10]", "2")):
+            texts.append("name g\nversion 1.0\n\nG0%s | %s\nG1%s | %s\nG0%s | %s\n" % (e1, ms[0], e2, ms[1], e3, ms[2]))
     return texts
 
 
@@ -153,13 +158,14 @@ def _loaded(text):
     st, p = common.loads(text)
     if st == "exc":
         return ("C16/script-does-not-load", common.exc_sig(p))
+    # the reference wires come from the script TEXT (registers as written), not from the parsed transforms
+    stmts = [l for l in text.split("\n")[3:] if l.strip()]
     seq = []
-    for o in p.operations:
-        regs = set()
-        for v in list(o.get("args", [])) + list(o.get("kwargs", {}).values()):
-            if type(v).__name__ == "RegRefTransform":
-                regs |= set(v.regrefs)
+    for o, line in zip(p.operations, stmts):
+        regs = {int(x) for x in re.findall(r"\bq(\d+)\b", line.split("|")[0])}
         seq.append((tuple(int(m) for m in o["modes"]), "x", tuple(sorted(regs))))
+    if len(stmts) != len(p.operations):
+        return ("C16/loaded:operation-count", "%d statements, %d operations" % (len(stmts), len(p.operations)))
     import networkx as nx
     g = to_DiGraph(p)
     N = len(seq)
